@@ -78,6 +78,9 @@ FLAVOURS = {
     "plain": dict(cxx="g++", flags=COMMON + ["-g1"], link=[]),
     "tsan": dict(cxx="clang++", flags=COMMON + ["-gline-tables-only", "-fsanitize=thread", "-DTEAKSIM_TSAN"],
                  link=["-fsanitize=thread"] + ["-Wl,--wrap=" + s for s in TSAN_WRAPS]),
+    # coverage measurement only (tools/coverage.sh): which lines of the repository the scenarios reach
+    "cov": dict(cxx="clang++", flags=COMMON + ["-gline-tables-only", "-fprofile-instr-generate", "-fcoverage-mapping"],
+                link=["-fprofile-instr-generate"]),
 }
 
 
